@@ -20,9 +20,10 @@ def isExit : Stmt → Bool
   | .brk => true
   | .cont => true
   | .brkLoop => true
+  | .jump _ => true
   | _ => false
 
-/-- a body that is a single `break` / `continue` / `break_loop` -/
+/-- a body that is a single `break` / `continue` / `break_loop` / `jump` -/
 def loneExit : Stmts → Bool
   | .cons s .nil => isExit s
   | _ => false
@@ -40,7 +41,8 @@ mutual
 empty blocks (F1); from level 2 on `forever` / `while` / `for` with `continue` and `break_loop` (F2; the init and increment
 statements of `for` are F0 statements); from level 3 on `switch` with `case` / `default` / `break`, fall-through and
 cases sharing a block (F3; not: a switch without cases, a header op that ends the routine, a case block that is a single
-`break` / `continue` / `break_loop`, which `_process_block` may fold into the header jump) -/
+`break` / `continue` / `break_loop`, which `_process_block` may fold into the header jump); from level 4 on user labels,
+`jump @l` and `call @l` anywhere (F4) -/
 def cgStmt (lv : Nat) : Stmt → Bool
   | .op n ps => cgSimple (.op n ps)
   | .inl c cp n ps => cgSimple (.inl c cp n ps)
@@ -49,6 +51,9 @@ def cgStmt (lv : Nat) : Stmt → Bool
   | .end_ => true
   | .hold => true
   | .ite _ hdrs body elifs _ els => hdrs.all (fun h => isTest h.name) && cgStmts lv body && cgElifs lv elifs && cgStmts lv els
+  | .label _ => decide (4 ≤ lv)
+  | .jump _ => decide (4 ≤ lv)
+  | .call _ => decide (4 ≤ lv)
   | .brk => decide (3 ≤ lv)
   | .switch hdr cs => decide (3 ≤ lv) && nameOK hdr.name && !Beh.endsFlow hdr.name && !cs.isNil && decide (countDefaults cs ≤ 1) &&
       cgCases lv hdr.name cs
@@ -69,6 +74,29 @@ def cgCases (lv : Nat) (sw : String) : Cases → Bool
   | .cons d name _ body r => (d || (isTest name && isTest (caseName sw name))) && !loneExit body && cgStmts lv body && cgCases lv sw r
 end
 
+mutual
+/-- the user labels a statement mentions (defines, jumps to, calls) -/
+def mlStmt : Stmt → List String
+  | .label n => [n]
+  | .jump n => [n]
+  | .call n => [n]
+  | .ite _ _ body elifs _ els => mlStmts body ++ mlElifs elifs ++ mlStmts els
+  | .switch _ cs => mlCases cs
+  | .forever body => mlStmts body
+  | .while_ _ _ body => mlStmts body
+  | .for_ init _ inc body => mlStmt init ++ mlStmt inc ++ mlStmts body
+  | _ => []
+def mlStmts : Stmts → List String
+  | .nil => []
+  | .cons s r => mlStmt s ++ mlStmts r
+def mlElifs : Elifs → List String
+  | .nil => []
+  | .cons _ _ body r => mlStmts body ++ mlElifs r
+def mlCases : Cases → List String
+  | .nil => []
+  | .cons _ _ _ body r => mlStmts body ++ mlCases r
+end
+
 theorem simpleOK_congr {cx : Cx} {items : List LItem} {t1 t2 : Nat → Src.B → Src.B × Nat}
     (h : SimpleOK cx items t1) (e : ∀ k b, t1 k b = t2 k b) : SimpleOK cx items t2 := by
   have : t1 = t2 := by funext k b; exact e k b
@@ -84,27 +112,27 @@ theorem pm_congr {cx : Cx} {mc : M (List LItem)} {t1 t2 : Nat → Src.B → Src.
   fun s items s' hs => pieceOK_congr (h s items s' hs) e
 
 /-- a halting control statement is the op of its name -/
-theorem ctl_simple (cx : Cx) (fuel : Nat) (env : Src.Env) (he : PlainEnv env) (nm sn : String) (st : Src.Stmt)
+theorem ctl_simple (cx : Cx) (fuel : Nat) (env : Src.Env) (he : EnvOK cx env) (nm sn : String) (st : Src.Stmt)
     (hn : nameOK nm = true) (hf : Beh.endsFlow nm = true) (hnm : nm = sn)
     (htr : ∀ k b, Src.tr fuel [] env st k b = b.push (.halt ⟨sn, []⟩)) {s : St} {items : List LItem} {s' : St}
     (h : opStmt nm [] s = .ok (items, s')) :
-    SimpleOK cx items (fun k b => Src.tr fuel [] env st k b) ∧ s'.loops = s.loops ∧ s'.cases = s.cases := by
+    SimpleOK cx items (fun k b => Src.tr fuel [] env st k b) ∧ SameStk s s' := by
   subst hnm
-  obtain ⟨a, b, c⟩ := op_simple cx fuel nm [] hn h env he
-  refine ⟨simpleOK_congr a (fun k b => ?_), b, c⟩
+  obtain ⟨a, b⟩ := op_simple cx fuel nm [] hn h env he
+  refine ⟨simpleOK_congr a (fun k b => ?_), b⟩
   rw [htr, Src.tr]
   simp [hf, he.1, substEv_nil, convParams]
 
 /-- an op under a context: inline context, or a with-block -/
-theorem ctx_pm (cx : Cx) (fuel : Nat) (env : Src.Env) (he : PlainEnv env) (c : String) (cp : ESV.Param) (n : String) (ps : List ESV.Param)
+theorem ctx_pm (cx : Cx) (fuel : Nat) (env : Src.Env) (he : EnvOK cx env) (c : String) (cp : ESV.Param) (n : String) (ps : List ESV.Param)
     (hc : isCtx c = true) (hn : nameOK n = true) (inner : Src.Stmt)
     (hspec : ∀ k b, Src.afterCtxSpecial env inner k b = some (b.push (.emit ⟨n, convParams ps⟩ k)))
     {mc : M (List LItem)}
     (hmc : ∀ s items s', mc s = .ok (items, s') → ∃ oc oo, items = [.op ⟨oc, c, [cp]⟩, .op ⟨oo, n, ps⟩] ∧ SameStk s s')
     {s : St} {items : List LItem} {s' : St} (h : mc s = .ok (items, s')) :
-    SimpleOK cx items (fun k b => Src.tr fuel [] env (.ctx c [convParam cp] inner) k b) ∧ s'.loops = s.loops ∧ s'.cases = s.cases := by
+    SimpleOK cx items (fun k b => Src.tr fuel [] env (.ctx c [convParam cp] inner) k b) ∧ SameStk s s' := by
   obtain ⟨oc, oo, rfl, hst⟩ := hmc s items s' h
-  refine ⟨ctx_simple cx c cp n ps hc hn oc oo _ (fun k b => ?_), hst.1, hst.2⟩
+  refine ⟨ctx_simple cx c cp n ps hc hn oc oo _ (fun k b => ?_), hst⟩
   rw [Src.tr]
   simp only [hspec, he.1, substEv_nil]
 
@@ -136,9 +164,9 @@ theorem patchNone_if (e : Nat) (c : Bool) (l : List LItem) : patchNone e (if c t
   cases c <;> rfl
 
 /-- the statements of F0 never look at the exits -/
-theorem simple_c (cx : Cx) (fuel : Nat) : ∀ (st : Stmt) (lb : Nat), cgSimple st = true → ∀ (env : Src.Env), PlainEnv env →
+theorem simple_c (cx : Cx) (fuel : Nat) : ∀ (st : Stmt) (lb : Nat), cgSimple st = true → ∀ (env : Src.Env), EnvOK cx env →
     ∀ (s : St) (items : List LItem) (s' : St), cStmt [] lb st s = .ok (items, s') →
-    SimpleOK cx items (fun k b => Src.tr fuel [] env (toSrcStmt st) k b) ∧ s'.loops = s.loops ∧ s'.cases = s.cases
+    SimpleOK cx items (fun k b => Src.tr fuel [] env (toSrcStmt st) k b) ∧ SameStk s s'
   | .op n ps, lb, hg, env, he => by
     intro s items s' h
     simp only [cStmt, toSrcStmt] at h ⊢
@@ -195,10 +223,10 @@ theorem simple_c (cx : Cx) (fuel : Nat) : ∀ (st : Stmt) (lb : Nat), cgSimple s
   | .for_ .., _, hg, _, _ => by simp [cgSimple] at hg
   | .macroCall .., _, hg, _, _ => by simp [cgSimple] at hg
 
-theorem simple_pm (cx : Cx) (fuel : Nat) (st : Stmt) (lb : Nat) (hg : cgSimple st = true) (env : Src.Env) (he : PlainEnv env) :
+theorem simple_pm (cx : Cx) (fuel : Nat) (st : Stmt) (lb : Nat) (hg : cgSimple st = true) (env : Src.Env) (he : EnvOK cx env) :
     PM cx (cStmt [] lb st) (fun k b => Src.tr fuel [] env (toSrcStmt st) k b) env := by
   intro s items s' h
-  obtain ⟨a, b, c⟩ := simple_c cx fuel st lb hg env he s items s' h
-  exact a.piece b c env
+  obtain ⟨a, b⟩ := simple_c cx fuel st lb hg env he s items s' h
+  exact a.piece b env
 
 end ESV.Comp
